@@ -736,6 +736,37 @@ def extract_poly_change_basis(tree):
 
 
 # ----------------------------------------------------------------------------------
+# Polynomial.evaluate: output layout assumed by the definition `evaluated` of Props/C14.v
+
+def check_evaluate_layout(tree):
+    """(points, remaining axes in order); row r of the points goes with axes[r]"""
+    cls = _find_class(tree, "Polynomial")
+    fn = _find_method(cls, "evaluate")
+    if [a.arg for a in fn.args.args] != ["self", "compactCoord", "axes"]:
+        raise TranslateError("Polynomial.evaluate signature changed")
+    text = U(fn)
+    needed = [
+        "polynomials = np.ones((compactCoord.shape[1],) + self.coefficients.shape)",
+        "for j, i in enumerate(axes):",
+        "self.cardinal(compactCoord[j, :, None], n[None, :], self.direction[i])",
+        "self.chebyshev(compactCoord[j, :, None], n[None, :], restriction)",
+        "polynomials *= np.expand_dims(pn, tuple(np.arange(1, i + 1)) + "
+        "tuple(np.arange(i + 2, self.rank + 1)))",
+        "result = np.sum(self.coefficients[None, ...] * polynomials, "
+        "axis=tuple(np.array(axes) + 1))",
+    ]
+    text = text.replace("for (j, i) in", "for j, i in")
+    for line in needed:
+        if line not in text:
+            raise TranslateError("Polynomial.evaluate: layout statement not found: " + line)
+    # nothing permutes the result afterwards
+    tail = text[text.index(needed[-1]) + len(needed[-1]):]
+    for bad in ("transpose", "moveaxis", "swapaxes", "reshape", ".T"):
+        if bad in tail:
+            raise TranslateError("Polynomial.evaluate: result is rearranged (%s)" % bad)
+
+
+# ----------------------------------------------------------------------------------
 
 def _coq_list(items):
     return "[" + "; ".join(items) + "]"
@@ -753,7 +784,9 @@ def generate(src_collision, src_boltzmann, src_polynomial):
     if not itp["assert"]:
         raise TranslateError("interpolateCollisionArray lost its size assertion")
     facts.update(extract_load_collisions(ast.parse(src_boltzmann)))
-    lines, contraction = extract_poly_change_basis(ast.parse(src_polynomial))
+    tp = ast.parse(src_polynomial)
+    lines, contraction = extract_poly_change_basis(tp)
+    check_evaluate_layout(tp)
 
     def guards(gs):
         return _coq_list("(%s, %s)" % g for g in gs)
